@@ -145,6 +145,20 @@ def call_ext(I: Interp, name: str, args, kwargs, fr: Frame, node=None):
     if short in ("uuid4",):
         st.log.append("uuid4() = fresh opaque value")
         return st.fresh_val("uuid", T.STR)
+    if name == "copy.copy" and args and isinstance(args[0], SV) and T.strip_opt(args[0].ty).k in ("dict", "list"):
+        # shallow copy of a container = its own .copy()
+        src = args[0]
+        ty = T.strip_opt(src.ty)
+        r = smt.rid(src.t)
+        if ty.k == "dict":
+            nr = st.new_ref(DICT_CID)
+            for a in ("dhas", "dget", "dsz", "dkeys"):
+                st.heap[a] = z3.Store(st.arr(a), nr, z3.Select(st.arr(a), r))
+        else:
+            nr = st.new_ref(LIST_CID)
+            st.heap["llen"] = z3.Store(st.arr("llen"), nr, z3.Select(st.arr("llen"), r))
+            st.heap["lel"] = z3.Store(st.arr("lel"), nr, z3.Select(st.arr("lel"), r))
+        return SV(smt.mk_ref(nr), ty)
     if short == "deepcopy" or name == "copy.copy":
         raise Refuse("copy/deepcopy")
     if name in ("random.randint",):
